@@ -50,6 +50,10 @@ ASSUMPTIONS = [
     "a file listed twice (PATHs overlapping) is parsed twice and would be counted twice; the generator does not overlap "
     "PATHs that contain broken files",
     "codegen=true is not generated as a -O option (would invoke the C compiler)",
+    "which -O spellings are malformed is implementation-defined: `name=value` with one '=' (non-empty name, non-integer "
+    "value) counts as accepted and a string without '=' as one usage error by construction; other spellings (`a=b=c`, "
+    "`=v`, ` a = 1`, `x=1`, `a=`) are classified by running the tool on that option alone and then must be counted the same "
+    "way in every invocation",
 ]
 
 MOD = {
@@ -66,6 +70,13 @@ MOD = {
     "latin1": "model {n} Real x; // café\n equation x = 1; end {n};",
 }
 GOODKINDS = ["good", "good", "uses", "ext", "pkg"]
+# -O strings.  Which spellings the tool accepts is implementation-defined and outside the property, so only the two
+# clear classes are classified by construction; the ambiguous spellings are classified by asking the implementation
+# (the option alone in an invocation where nothing else can fail) and then counted accordingly.
+WELL_FORMED = ["detect_aliases=true", "expand_vectors=False", "spam=eggs", "check_balanced=True", "cache=False",
+               "replace_constant_values=TRUE", "x=one", "resolve_parameter_values=false"]
+MALFORMED = ["eggs", "NAME", "k:v", "novalue", "cache"]
+AMBIGUOUS = ["a=b=c", "a==", "=v", " a = 1", "x=1", "a=", "library_path=p=q"]
 FAILKINDS = ["fail", "failext"]
 SYMPYBAD = ["arr", "ife"]
 
@@ -173,6 +184,8 @@ def render_argv(inv, rng):
 
     def opt(short, long_, val, abbrev=None):
         r = rng.random()
+        if val[:1] in ("=", " ", "-") and 0.35 <= r < 0.5:
+            r = 0.1     # `-O=v` would be read as value "v": keep such values in a token of their own
         if r < 0.35:
             opts.append([short, val])
         elif r < 0.5:
@@ -294,8 +307,7 @@ def gen_invocation(rng, world, stream):
         inv["target"] = None
     # ---- options, outdir
     for _ in range(rng.choice([0, 0, 1, 2])):
-        inv["options"].append(rng.choice(["detect_aliases=true", "expand_vectors=False", "spam=eggs", "check_balanced=True",
-                                          "cache=False", "replace_constant_values=TRUE", "x=1"]))
+        inv["options"].append(rng.choice(WELL_FORMED))
     inv["outdir"] = rng.choice(["out", "out", None]) if inv["target"] != "sympy" else "out"
     # ---- stream-specific edits
     if kind == "usage":
@@ -307,7 +319,7 @@ def gen_invocation(rng, world, stream):
                 inv["outdir"] = rng.choice(["missing-out", "README.txt", "libA/" + sorted(os.path.basename(f) for f in files
                                                                                        if f.startswith("libA/") and f.count("/") == 1)[0]])
             else:
-                inv["options"].insert(rng.randint(0, len(inv["options"])), rng.choice(["eggs", "a=b=c", "a==", "k:v", "NAME"]))
+                inv["options"].insert(rng.randint(0, len(inv["options"])), rng.choice(MALFORMED if rng.random() < 0.75 else AMBIGUOUS))
         if rng.random() < 0.3:   # usage errors hide later-stage errors
             inv["paths"].append("broken")
     elif kind == "parse":
@@ -481,18 +493,44 @@ class Truth:
 
 
 def option_values(options):
-    """The -O strings that are well-formed (exactly one '='), as the dict the backends get."""
-    good, nbad = {}, 0
+    """The clearly well-formed -O strings as the dict the backends get (the ambiguous spellings only use names no
+    backend knows, so they do not influence whether a model generates)."""
+    good = {}
     for o in options:
-        if o.count("=") == 1:
+        if o in WELL_FORMED:
             k, v = o.split("=")
             good[k] = True if v.lower() == "true" else False if v.lower() == "false" else v
-        else:
-            nbad += 1
-    return good, nbad
+    return good
 
 
-def abstract(truth, inv):
+_OPTION_VERDICT = {}
+
+
+def option_ok(ctx, opt):
+    """Does the tool accept `opt` as NAME=VALUE?  By construction for the two clear classes; for the ambiguous spellings
+    the implementation is asked once per run: `main([<one valid file>, "-O", opt])`, where nothing else can be counted."""
+    if opt in WELL_FORMED:
+        return True
+    if "=" not in opt:
+        return False
+    if opt not in _OPTION_VERDICT:
+        root = os.path.join(ctx.scratch, "c26-option-probe")
+        os.makedirs(root, exist_ok=True)
+        with open(os.path.join(root, "Probe.mo"), "w") as f:
+            f.write(MOD["good"].format(n="Probe", g=""))
+        out = run_main(root, ["Probe.mo", "--option=" + opt])
+        st = status_of(out)
+        if st not in (0, 1) or out["kind"] != "return":
+            ctx.violation("exception escaped main" if out["kind"] == "raised" else "exit status differs from the error count",
+                          {"probe": True, "opt": opt, "argv": ["Probe.mo", "--option=" + opt]},
+                          expected="0 or 1", observed=st, kind="input")
+            st = 1
+        _OPTION_VERDICT[opt] = (st == 0)
+        ctx.count("option-probe:%s:%s" % (opt, "accepted" if st == 0 else "rejected"))
+    return _OPTION_VERDICT[opt]
+
+
+def abstract(ctx, truth, inv):
     """Everything the property (and the Lean model) needs to know about one invocation."""
     root = truth.root
     d = inv.get("defect")
@@ -503,7 +541,9 @@ def abstract(truth, inv):
     else:
         verdict = "ok"
     outdir = inv["outdir"] if inv["outdir"] is not None else "."
-    opts, nbad = option_values(inv["options"])
+    opts = option_values(inv["options"])
+    optok = [option_ok(ctx, o) for o in inv["options"]]
+    nbad = sum(1 for b in optok if not b)
     lst = truth.listing(inv["paths"])
     rels = [f for f, _ in lst]
     target = inv["target"] or "none"
@@ -531,7 +571,7 @@ def abstract(truth, inv):
                 lab["casadi"] = [[dirs.index(x), truth.casadi(x, m, opts)] for x in ds]
         models.append(lab)
     return {"argparse": verdict, "target": target, "outdir_ok": os.path.isdir(os.path.join(root, outdir)), "paths": paths,
-            "options": list(inv["options"]), "models": models}
+            "options": optok, "option_strings": list(inv["options"]), "models": models}
 
 
 # ------------------------------------------------------------------------------------------
@@ -560,7 +600,7 @@ def expected_status(ab):
     if ab["target"] != "none" and not ab["models"]:
         return 2, "argparse"
     usage = (0 if ab["outdir_ok"] else 1) + sum(1 for p in ab["paths"] if not p["exists"]) + \
-        sum(1 for o in ab["options"] if o.count("=") != 1)
+        sum(1 for ok in ab["options"] if not ok)
     if usage:
         return usage, "usage"
     files = [f for p in ab["paths"] for f in p["files"]]
@@ -665,7 +705,7 @@ def check_invocation(ctx, case, drv, independence=True):
     if truth is None:
         truth = _TRUTH[(root, world["id"])] = Truth(root, world)
     with contextlib.redirect_stderr(io.StringIO()):   # ANTLR's console error listener
-        ab = abstract(truth, inv)
+        ab = abstract(ctx, truth, inv)
     exp, stage = expected_status(ab)
     obs = run_main(root, argv)
     st = status_of(obs)
@@ -753,6 +793,7 @@ def make_case(ctx, rng, world, stream):
 def run(ctx):
     drv = ctx.driver("drv_c26")
     _TRUTH.clear()
+    _OPTION_VERDICT.clear()
     quick = ctx.tier == "quick"
     from harness import corpus
     for c in corpus.load("C26"):
@@ -800,6 +841,9 @@ def search(ctx):
 
 
 def replay(ctx, payload):
+    if payload["case"].get("probe"):
+        option_ok(ctx, payload["case"]["opt"])
+        return
     check_invocation(ctx, payload["case"], ctx.driver("drv_c26"))
 
 
